@@ -17,6 +17,8 @@ import (
 	"io"
 	"os"
 	"runtime/debug"
+	"strconv"
+	"time"
 
 	"compiler/internal/compiler"
 )
@@ -38,10 +40,20 @@ type result struct {
 	Stdout  string `json:"stdout"`
 }
 
+var tmpE, tmpO *os.File
+
 func runJob(j job, realOut *os.File) (res result) {
 	res.ID = j.ID
-	tmpE, _ := os.CreateTemp("", "fesrv_e")
-	tmpO, _ := os.CreateTemp("", "fesrv_o")
+	if tmpE == nil {
+		tmpE, _ = os.CreateTemp("", "fesrv_e")
+		tmpO, _ = os.CreateTemp("", "fesrv_o")
+		os.Remove(tmpE.Name())
+		os.Remove(tmpO.Name())
+	}
+	tmpE.Truncate(0)
+	tmpE.Seek(0, 0)
+	tmpO.Truncate(0)
+	tmpO.Seek(0, 0)
 	oldE, oldO := os.Stderr, os.Stdout
 	os.Stderr, os.Stdout = tmpE, tmpO
 	defer func() {
@@ -55,10 +67,6 @@ func runJob(j job, realOut *os.File) (res result) {
 		be, _ := io.ReadAll(tmpE)
 		bo, _ := io.ReadAll(tmpO)
 		res.Stderr, res.Stdout = string(be), string(bo)
-		tmpE.Close()
-		tmpO.Close()
-		os.Remove(tmpE.Name())
-		os.Remove(tmpO.Name())
 	}()
 	backend := j.Backend
 	if backend == "" {
@@ -79,7 +87,14 @@ func runJob(j job, realOut *os.File) (res result) {
 	return res
 }
 
+var jobTimeout = 20 * time.Second
+
 func main() {
+	if ms := os.Getenv("FESRV_JOB_TIMEOUT_MS"); ms != "" {
+		if v, err := strconv.Atoi(ms); err == nil && v > 0 {
+			jobTimeout = time.Duration(v) * time.Millisecond
+		}
+	}
 	realOut := os.Stdout
 	in := bufio.NewReaderSize(os.Stdin, 1<<20)
 	w := bufio.NewWriter(realOut)
@@ -91,7 +106,17 @@ func main() {
 				// announce the job first so the orchestrator knows which one was in flight
 				fmt.Fprintf(w, "{\"start\":%d}\n", j.ID)
 				w.Flush()
-				res := runJob(j, realOut)
+				done := make(chan result, 1)
+				go func() { done <- runJob(j, realOut) }()
+				var res result
+				select {
+				case res = <-done:
+				case <-time.After(jobTimeout):
+					// the compile does not return: report it and give up this process
+					fmt.Fprintf(w, "{\"id\":%d,\"hang\":true}\n", j.ID)
+					w.Flush()
+					os.Exit(3)
+				}
 				b, _ := json.Marshal(res)
 				w.Write(b)
 				w.WriteByte('\n')
